@@ -125,6 +125,10 @@ def cases(c):
             else:
                 hw = E.halfwidth_real(cls, params, N, NFFT) or 2
                 lo, hi = hw + 2, NFFT // 2 - hw - 2
+                if N > 200:
+                    # long records have fine grids: "away from 0 and sampling/2" is a matter of frequency, not of bins
+                    # (a low-order AR fit of a sinusoid a few fine bins from fs/2 is pulled onto fs/2)
+                    lo, hi = max(lo, NFFT // 8), min(hi, (3 * NFFT) // 8)
                 if hi < lo:
                     continue
                 k = int(rng.integers(lo, hi + 1))
